@@ -82,6 +82,15 @@ def run_case(case):
     tiled = cdf(np.tile(P, (k, 1))).reshape(k, len(P))
     zero_first = np.vstack([[[0.0, 0.3], [0.3, 0.0], [0.0, 0.0]], P])
     zf = cdf(zero_first)[3:]
+    # the SAME array object evaluated twice: the call must not edit its argument, so both answers agree
+    same = np.array(P, dtype=float)
+    r.tr(2)
+    first_ans = np.asarray(cop.cumulative_distribution(same), float)
+    second_ans = np.asarray(cop.cumulative_distribution(same), float)
+    if not np.array_equal(same, P) or not np.array_equal(first_ans, second_ans, equal_nan=True):
+        r.violation(f'{sig}:argument-reuse', f'{fam} theta={th}: cumulative_distribution '
+                    f'{"modified its argument" if not np.array_equal(same, P) else "answers differently the second time"} '
+                    f'when the same array object is evaluated twice', case=case)
     r.ev(len(P) * (4 + k))
     for name, arr in (('full', full), ('reversed', rev), ('boundary-first', zf)) + \
             tuple((f'tile{j}', tiled[j]) for j in (0, k - 1)):
